@@ -583,6 +583,11 @@ func (tt *termTable) real2bv(a *T, w int) *T {
 		q := new(big.Int).Quo(a.rat.Num(), a.rat.Denom()) // truncates toward zero
 		return tt.bvc(w, uint64(q.Int64()))
 	}
+	// int(float64(x)) for a signed x of the same width is x when floats are modelled as reals
+	// (the engine's stated approximation: rounding above 2^53 is not modelled)
+	if a.op == "bv2real" && a.k == 1 && a.args[0].w == w {
+		return a.args[0]
+	}
 	return tt.intern("real2bv", w, 0, "", nil, a)
 }
 
